@@ -196,7 +196,7 @@ def shard_worker(args):
             runs.append((sc, li, lo, None))
         model_outs = None
         if not judge_only:
-            idx = [k for k, r in enumerate(runs) if r[1] is not None]
+            idx = [k for k, r in enumerate(runs) if r[1] is not None and not r[0].get('no_model')]
             mo = core.run_model_batch([runs[k][1] for k in idx]) if idx else []
             model_outs = {k: mo[j] for j, k in enumerate(idx)}
         failures = []
@@ -212,7 +212,7 @@ def shard_worker(args):
             verdicts = prop.judge(sc, li, lo)
             for (clause, detail) in verdicts:
                 failures.append({'kind': 'judge', 'scenario': sc, 'clause': clause, 'detail': detail})
-            if model_outs is not None:
+            if model_outs is not None and k in model_outs:
                 mo = model_outs[k]
                 d = first_diff_projected(prop, li, lo, mo)
                 stats['lines_compared'] += len(li)
@@ -254,7 +254,7 @@ def eval_one(prop, sc, judge_only=False):
     v = prop.judge(sc, li, lo)
     if v:
         return 'judge', {'clause': v[0][0], 'detail': v[0][1], 'lines_in': li, 'impl_out': lo}
-    if judge_only:
+    if judge_only or sc.get('no_model'):
         return None, {'lines_in': li, 'impl_out': lo}
     mo = core.run_model_batch([li])[0]
     d = first_diff_projected(prop, li, lo, mo)
